@@ -173,6 +173,63 @@ pub fn run_property(prop: &str, tier: &str) -> Option<Outcome> {
             small_table(prop, &[Kind::Std], &[Method::NoSuf, Method::NoSufIt], tier, &mut acc, &mut bounds);
             ("model_checking", "non-trivial = the no-suffix answer is non-empty and differs from the non-overlapping answer".into(), vec![])
         }
+        "C06" => {
+            // values through the u32 engine: every method, every kind, bare and explicit values
+            let thorough = tier_is_thorough(tier);
+            let scope = if thorough { Scope::new(2, 4, 3, Order::SetsBothWays, 6, 1) } else { Scope::new(2, 3, 3, Order::SetsBothWays, 5, 1) };
+            for (variant, embs) in [(Variant::Byte, enumr::byte_embeddings(util::seed())), (Variant::Char, enumr::char_embeddings())] {
+                let a = e2::run_scope(&scope, &embs, |ctx, acc| {
+                    let mut cfgs = Vec::new();
+                    for kind in Kind::ALL {
+                        cfgs.push(Cfg::new(variant, kind, None, Entry::Builder));
+                    }
+                    cfgs.push(Cfg::new(variant, Kind::Std, None, Entry::Assoc));
+                    e2::sweep_searches(prop, ctx, &cfgs, &|k| Method::for_kind(k).to_vec(), true, acc);
+                });
+                acc.merge(a);
+            }
+            bounds.push(format!("E2 u32 values (bare + explicit) {} x all embeddings x 3 kinds x all methods", scope.name()));
+            run_types("C06", tier, &mut acc, &mut bounds);
+            pop_table(prop, &Kind::ALL, &[], tier, &mut acc, &mut bounds);
+            ("exploration", "every (pattern set, value assignment over {0,1,MAX}/{MIN,-1,0,MAX}, type, variant, kind, haystack); non-trivial = two patterns share a value (or a single pattern)".into(), vec![])
+        }
+        "C16" => {
+            crate::e6::c16(tier, &mut acc, &mut bounds);
+            ("exploration", "every invocation of the listed product; non-trivial = a printed line has two or more occurrences or a multi-byte character".into(),
+             vec!["--color=auto is not covered (terminal dependent)".into()])
+        }
+        "C07" => {
+            crate::props2::c07(tier, &mut acc, &mut bounds);
+            ("model_checking", "closure: every reachable state x every label (+ fail links, output chains) of every automaton, built and deserialised; non-trivial E2 cases = haystacks with overlapping matches; decoder: scalar values >= U+0080".into(),
+             vec!["std's unsafe-precondition checks (debug-assertions profile) are the UB oracle for executed paths".into()])
+        }
+        "C08" => {
+            crate::props2::c08(tier, &mut acc, &mut bounds);
+            ("model_checking", "states = pairs (char-wise state, byte-wise state) explored, transitions = pairs x labels; non-trivial pair = the patterns contain a multi-byte character".into(), vec![])
+        }
+        "C09" => {
+            crate::props2::c09(tier, &mut acc, &mut bounds);
+            run_types("C09", tier, &mut acc, &mut bounds);
+            ("model_checking", "every automaton of the population: round trip with 4 tails, image parsed independently, product exploration original vs restored; non-trivial = leftmost kind or char-wise variant".into(), vec![])
+        }
+        "C10" => {
+            crate::props3::c10(tier, &mut acc, &mut bounds);
+            ("exploration", "every pattern collection of the listed bounds x configuration; non-trivial = the collection is invalid (empty collection, empty pattern or repeat) or sits on an index-conversion boundary".into(), vec![])
+        }
+        "C12" => {
+            crate::props3::c12(tier, &mut acc, &mut bounds);
+            ("exploration", "every (pattern set, embedding, haystack) x 3 byte-iterator methods with the pull count checked after every next(); non-trivial = some match ends before the end of the haystack".into(), vec![])
+        }
+        "C14" => {
+            crate::props3::c14(tier, &mut acc, &mut bounds);
+            crate::props::run_sched(tier, &mut acc, &mut bounds);
+            ("model_checking", "evaluations = builds compared (all n! orders) + merge experiments; states/transitions = schedules / scheduling steps explored by shuttle's exhaustive DFS".into(),
+             vec!["cooperative scheduler: unsynchronised writes would be invisible to it; they are ruled out by the image-unchanged oracle and the Sync+Send compile-time probe".into()])
+        }
+        "C11" => {
+            crate::props2::c11(tier, &mut acc, &mut bounds);
+            ("model_checking", "states = pairs (state of nfb=k build, state of default build), transitions = pairs x all labels; non-trivial = the k-build evicted at least one block (blocks > k)".into(), vec![])
+        }
         "C13" => {
             pop_table(prop, &Kind::ALL, &[], tier, &mut acc, &mut bounds);
             small_table(prop, &Kind::ALL, &[], tier, &mut acc, &mut bounds);
@@ -207,13 +264,102 @@ pub fn replay_table(case: &serde_json::Value) -> bool {
     let (cfg, pats, vals) = pop::rebuild(case);
     let prop = case["found_by"].as_str().or(case["property"].as_str()).unwrap_or("C01").to_string();
     let mut acc = Acc::new();
-    let Some(b) = e2::build_or_violate(&prop, "table", cfg, &pats, vals.as_deref(), &mut acc) else {
+    let Some(mut b) = e2::build_or_violate(&prop, "table", cfg, &pats, vals.as_deref(), &mut acc) else {
         return true;
     };
+    if case["restored"].as_bool() == Some(true) {
+        b = b.round_trip();
+    }
     let origin = case.clone();
     e1::check_table(&prop, &b, &pats, &origin, &mut acc);
     if let Some(h) = case["haystack"].as_str() {
         println!("replay: witness haystack {}", h);
     }
     !acc.violations.is_empty()
+}
+
+/// E5: runs the shuttle explorer (separate binary) and merges its counts.
+pub fn run_sched(tier: &str, acc: &mut Acc, bounds: &mut Vec<String>) {
+    let exe = std::env::current_exe().unwrap().with_file_name("sched");
+    let out = std::process::Command::new(&exe).arg("check").arg(tier).output();
+    match out {
+        Ok(o) => {
+            let txt = String::from_utf8_lossy(&o.stdout).to_string();
+            for line in txt.lines() {
+                if let Some(j) = line.strip_prefix("SCHED-SUMMARY ") {
+                    if let Ok(v) = serde_json::from_str::<serde_json::Value>(j) {
+                        acc.states += v["schedules"].as_u64().unwrap_or(0);
+                        acc.transitions += v["steps"].as_u64().unwrap_or(0);
+                        acc.traces += v["schedules"].as_u64().unwrap_or(0);
+                        acc.count("shuttle_schedules", v["schedules"].as_u64().unwrap_or(0));
+                        acc.count("shuttle_harnesses", v["harnesses"].as_u64().unwrap_or(0));
+                        acc.count("distinct_pull_interleavings", v["distinct_interleavings"].as_u64().unwrap_or(0));
+                        if let Some(b) = v["bounds"].as_str() {
+                            bounds.push(b.to_string());
+                        }
+                        if let Some(s) = v.get("sample") {
+                            acc.samples.insert(0, s.clone());
+                        }
+                    }
+                } else if line.starts_with("VIOLATION") || line.starts_with("  what:") {
+                    println!("{line}");
+                    if line.starts_with("VIOLATION") {
+                        acc.violations.push(util::Violation { property: "C14".into(), engine: "sched", what: line.to_string(), case: json!({}) });
+                    }
+                }
+            }
+            if !o.status.success() && !txt.contains("VIOLATION") {
+                eprintln!("MACHINERY: sched exited with {:?}: {}", o.status, String::from_utf8_lossy(&o.stderr));
+                std::process::exit(2);
+            }
+        }
+        Err(e) => {
+            eprintln!("MACHINERY: cannot run {exe:?}: {e}");
+            std::process::exit(2);
+        }
+    }
+}
+
+/// Value-type matrix (separate binary): runs it and merges its counts.
+pub fn run_types(which: &str, tier: &str, acc: &mut Acc, bounds: &mut Vec<String>) {
+    let exe = std::env::current_exe().unwrap().with_file_name("daacmc-types");
+    let out = std::process::Command::new(&exe).arg("check").arg(which).arg(tier).stderr(std::process::Stdio::inherit()).output();
+    match out {
+        Ok(o) => {
+            let txt = String::from_utf8_lossy(&o.stdout).to_string();
+            let mut seen = false;
+            for line in txt.lines() {
+                if let Some(j) = line.strip_prefix("TYPES-SUMMARY ") {
+                    if let Ok(v) = serde_json::from_str::<serde_json::Value>(j) {
+                        seen = true;
+                        acc.evals += v["evals"].as_u64().unwrap_or(0);
+                        acc.nontrivial += v["nontrivial"].as_u64().unwrap_or(0);
+                        acc.traces += v["traces"].as_u64().unwrap_or(0);
+                        if let Some(c) = v["counters"].as_object() {
+                            for (k, x) in c {
+                                acc.count(&format!("types_{k}"), x.as_u64().unwrap_or(0));
+                            }
+                        }
+                        if !v["sample"].is_null() {
+                            acc.samples.insert(0, v["sample"].clone());
+                        }
+                        bounds.push(format!("value-type matrix ({which}): 15 types (u8..u128, usize, i8..i128, isize, Empty, user3, user10) x 2 variants x 3 kinds x all methods x value assignments, before/after round trip: {}", v["notes"][0].as_str().unwrap_or("")));
+                    }
+                } else if line.starts_with("VIOLATION") || line.starts_with("  what:") {
+                    println!("{line}");
+                    if line.starts_with("VIOLATION") {
+                        acc.violations.push(util::Violation { property: which.into(), engine: "types", what: line.to_string(), case: json!({}) });
+                    }
+                }
+            }
+            if !seen || (!o.status.success() && !txt.contains("VIOLATION")) {
+                eprintln!("MACHINERY: daacmc-types exited with {:?}", o.status);
+                std::process::exit(2);
+            }
+        }
+        Err(e) => {
+            eprintln!("MACHINERY: cannot run {exe:?}: {e}");
+            std::process::exit(2);
+        }
+    }
 }
